@@ -41,6 +41,20 @@ var c07SingleArg = map[string][]bool{
 
 func c07Env() map[string]any { return map[string]any{"e": system.Collection{}} }
 
+// c07Alternatives: other well-typed values for a literal companion (receiver or argument):
+// identity elements, zero, negative, boundary and fractional numbers; empty and short strings.
+func c07Alternatives(lit string) []string {
+	switch {
+	case lit == "true" || lit == "false":
+		return []string{"true", "false"}
+	case strings.HasPrefix(lit, "'"):
+		return []string{"''", "'a'", "'abc'", "'1'"}
+	case strings.Trim(lit, "0123456789.-()") == "" && lit != "":
+		return []string{"0", "1", "(-1)", "2", "1.0", "0.5", "0.0", "2147483647"}
+	}
+	return nil
+}
+
 // c07Rebound: the empty collection supplied through %e must propagate whatever
 // the same compiled expression saw in %e before, and a value supplied after the
 // empty binding must give what a freshly compiled expression gives for it.
@@ -76,7 +90,7 @@ func init() {
 
 	core.Register(&core.Check{
 		ID:          "C07",
-		Rule:        "complete enumeration: every binary operator x operand position x 3 empty sources x 10 typed other operands (and both-empty); unary/type/indexer operators; every function-table name (read from the tree) x every arity Compile accepts x every position holding the empty collection with the other positions well-typed; every program that takes the empty collection from %e is also evaluated on one compiled expression after %e was bound to an Integer, a String and a Boolean (and those after the empty binding), with the freshly compiled expression as reference; non-trivial = distinct (program, outcome)",
+		Rule:        "complete enumeration: every binary operator x operand position x 3 empty sources x 10 typed other operands (and both-empty); unary/type/indexer operators; every function-table name (read from the tree) x every arity Compile accepts x every position holding the empty collection with the other positions well-typed, and each other literal position additionally varied over 0/1/-1/2/1.0/0.5/MaxInt32 resp. ''/'a'/'abc'/'1' resp. true/false; every program that takes the empty collection from %e is also evaluated on one compiled expression after %e was bound to an Integer, a String and a Boolean (and those after the empty binding), with the freshly compiled expression as reference; non-trivial = distinct (program, outcome)",
 		Assumptions: []string{"well-typed companion arguments come from the specification signature table of C16"},
 		Subs: func(tier string) []core.Sub {
 			tbl := funcs.AddExperimentalFuncs(funcs.Clone())
@@ -191,38 +205,60 @@ func init() {
 									}
 									posName = fmt.Sprintf("arg%d", pos)
 								}
-								src := callSrc(recv, name, args)
-								res := lib.Run(src, input(), c07Env(), copts...)
-								r.Eval()
-								c07Rebound(r, fmt.Sprintf("fn|%s|arity=%d|%s", name, n, posName), src, res, input, copts...)
-								r.State(fmt.Sprintf("fn|%s|%d|%s|%s", name, n, posName, es.name))
-								r.Outcome(name + "|" + res.Class())
-								r.Nontrivial(src, res.Class())
-								if r.WantSample() {
-									r.Sample(core.W{"src": src, "got": res.String()})
-								}
-								key := func(d string) string { return fmt.Sprintf("fn|%s|arity=%d|%s|%s|%s", name, n, posName, es.name, d) }
-								if res.Panic != nil {
-									r.Fail(key(res.Panic.Key()), core.W{"src": src, "got": res.String()})
-									continue
-								}
-								if res.CompileErr != nil {
-									r.Fail(key("compile-error"), core.W{"src": src, "got": res.String()})
-									continue
-								}
-								if pos < 0 {
-									if c07Aggregates[name] {
-										continue // totality only
+								runCase := func(recv string, args []string) {
+									src := callSrc(recv, name, args)
+									res := lib.Run(src, input(), c07Env(), copts...)
+									r.Eval()
+									c07Rebound(r, fmt.Sprintf("fn|%s|arity=%d|%s", name, n, posName), src, res, input, copts...)
+									r.State(fmt.Sprintf("fn|%s|%d|%s|%s", name, n, posName, es.name))
+									r.Outcome(name + "|" + res.Class())
+									r.Nontrivial(src, res.Class())
+									if r.WantSample() {
+										r.Sample(core.W{"src": src, "got": res.String()})
 									}
-									if !(res.Err == nil && len(res.Coll) == 0) {
-										r.Fail(key(res.Class()+"-instead-of-empty"), core.W{"src": src, "got": res.String(), "want": "[]"})
+									key := func(d string) string { return fmt.Sprintf("fn|%s|arity=%d|%s|%s|%s", name, n, posName, es.name, d) }
+									if res.Panic != nil {
+										r.Fail(key(res.Panic.Key()), core.W{"src": src, "got": res.String()})
+										return
 									}
-									continue
+									if res.CompileErr != nil {
+										r.Fail(key("compile-error"), core.W{"src": src, "got": res.String()})
+										return
+									}
+									if pos < 0 {
+										if c07Aggregates[name] {
+											return // totality only
+										}
+										if !(res.Err == nil && len(res.Coll) == 0) {
+											r.Fail(key(res.Class()+"-instead-of-empty"), core.W{"src": src, "got": res.String(), "want": "[]"})
+										}
+										return
+									}
+									// empty argument where a single value is required: empty or error, never a value
+									if sa := c07SingleArg[name]; pos < len(sa) && sa[pos] {
+										if res.Err == nil && len(res.Coll) > 0 {
+											r.Fail(key("fabricated-value"), core.W{"src": src, "got": res.String(), "want": "[] or error"})
+										}
+									}
 								}
-								// empty argument where a single value is required: empty or error, never a value
-								if sa := c07SingleArg[name]; pos < len(sa) && sa[pos] {
-									if res.Err == nil && len(res.Coll) > 0 {
-										r.Fail(key("fabricated-value"), core.W{"src": src, "got": res.String(), "want": "[] or error"})
+								runCase(recv, args)
+								// the companions of the empty position varied one at a time over values a shortcut could single out
+								for q := -1; q < n; q++ {
+									if q == pos {
+										continue
+									}
+									cur := recv
+									if q >= 0 {
+										cur = args[q]
+									}
+									for _, alt := range c07Alternatives(cur) {
+										r2, a2 := recv, append([]string{}, args...)
+										if q < 0 {
+											r2 = alt
+										} else {
+											a2[q] = alt
+										}
+										runCase(r2, a2)
 									}
 								}
 							}
